@@ -581,6 +581,11 @@ Proof. intros [A B C D E F G H] Hn. split; simpl; auto. Qed.
 Lemma Inv_set_attr_of s u a : Inv s -> Inv (set_attr_of s u a).
 Proof. intros [A B C D E F G H]. split; simpl; auto. Qed.
 
+Lemma Inv_mark_gone s u : Inv s -> Inv (mark_gone u s).
+Proof. intros [A B C D E F G H]. split; simpl; auto. Qed.
+Lemma Inv_add_preq s u : Inv s -> Inv (add_preq u s).
+Proof. intros [A B C D E F G H]. split; simpl; auto. Qed.
+
 Lemma sess_eqb_eq a b : sess_eqb a b = true <-> a = b.
 Proof.
   destruct a as [u1 s1 t1], b as [u2 s2 t2]. unfold sess_eqb; simpl.
@@ -693,6 +698,26 @@ Proof.
       apply del_ifN_sub in Eq2. congruence.
 Qed.
 
+(* tearing down an ARBITRARY session object (live, or stale: referenced only by a late dataplane callback) keeps
+   the invariant when removal is guarded: only entries that point to x itself go *)
+Lemma Inv_remove_any v s x : v_guard_remove v = true -> Inv s -> Inv (remove_indexes v x s).
+Proof.
+  intros Hg [A B C D E F G H]. split; simpl; auto; rewrite ?Hg.
+  - intros k' z Hl. apply del_ifN_sub in Hl. auto.
+  - intros t z Hl. pose proof Hl as Hl0. apply del_if_sub in Hl. destruct (B _ _ Hl) as [B1 B2].
+    split; [exact B1|]. destruct (sess_eqb z x) eqn:Eq.
+    + apply sess_eqb_eq in Eq. subst z. rewrite <- B1 in Hl0. rewrite del_if_own in Hl0; [discriminate|].
+      rewrite B1. exact Hl.
+    + apply del_ifN_keep; [exact B2|]. intros ->. rewrite (proj2 (sess_eqb_eq x x) eq_refl) in Eq. discriminate.
+  - intros k' z Hl. apply del_ifN_sub in Hl. eauto.
+  - intros k' z Hl. apply del_ifN_sub in Hl. eauto.
+  - intros z Hz. destruct (F z Hz) as (F1 & F2 & F3 & F4). split; [exact F1|]. split; [|split; [exact F3|]].
+    + destruct (del_ifN true x (s_sid x) (by_sid s) !! s_sid z) eqn:Eq1; [|reflexivity].
+      apply del_ifN_sub in Eq1. congruence.
+    + destruct (del_ifN true x (s_uid x) (by_uidx s) !! s_uid z) eqn:Eq2; [|reflexivity].
+      apply del_ifN_sub in Eq2. congruence.
+Qed.
+
 Lemma u16_lt n : u16 n < 65536.
 Proof. unfold u16. lia. Qed.
 
@@ -706,7 +731,8 @@ Proof.
 Qed.
 
 (* the variants for which the invariant is inductive over every interleaving *)
-Definition reserving (v : variant) : Prop := v_sid_guard v = true /\ v_reserve v = true /\ v_ha_check v = true.
+Definition reserving (v : variant) : Prop :=
+  v_sid_guard v = true /\ v_reserve v = true /\ v_ha_check v = true /\ v_guard_remove v = true.
 
 Lemma padr_begin_Inv v e s t p oc s1 ox : reserving v -> Inv s -> padr_begin v e s t p oc = Some (s1, ox) ->
   Inv s1 /\ pend s1 = pend s /\
@@ -717,7 +743,7 @@ Lemma padr_begin_Inv v e s t p oc s1 ox : reserving v -> Inv s -> padr_begin v e
               (forall y, In y (pend s1) -> s_sid y <> s_sid x /\ s_uid y <> s_uid x)
   end.
 Proof.
-  intros (Hg & Hr & _) HI Hb. apply padr_begin_cases in Hb as [Hx|(tg & sid & n' & _ & _ & _ & Ha & Hc)].
+  intros (Hg & Hr & _ & _) HI Hb. apply padr_begin_cases in Hb as [Hx|(tg & sid & n' & _ & _ & _ & Ha & Hc)].
   - inversion Hx; subst. auto.
   - apply alloc_choice_sound in Ha; [|apply norm_next_range; [exact Hg | apply HI] | apply HI]. destruct Ha as [Hn' Hsid].
     destruct Hc as [[_ Hx]|(Hz1 & Hz2 & Hx)]; inversion Hx; subst.
@@ -735,7 +761,7 @@ Qed.
 
 Lemma step_Inv v e s o s' r : reserving v -> Inv s -> step v e s o = Some (s', r) -> Inv s'.
 Proof.
-  intros Hv HI Hs. destruct o as [t|t p oc|t p oc|u|t sid|t sid|t sid a|sid|sid t a|sid t a|n]; simpl in Hs.
+  intros Hv HI Hs. destruct o as [t|t p oc|t p oc|u|t sid|t sid|t sid a|sid|sid t a|sid t a|n|xx|xx]; simpl in Hs.
   - destruct (e_grp e t); inversion Hs; subst; exact HI.
   - destruct (padr_begin v e s t p oc) as [[s1 [x|]]|] eqn:Eb; inversion Hs; subst;
       destruct (padr_begin_Inv _ _ _ _ _ _ _ _ Hv HI Eb) as (HI1 & Hp & Hx); [|exact HI1].
@@ -764,12 +790,12 @@ Proof.
       * apply Gs1. rewrite <- He. apply elem_of_list_In, in_map. exact Hy.
       * apply Gu1. rewrite <- He. apply elem_of_list_In, in_map. exact Hy.
   - destruct (by_sid s !! sid) as [x|] eqn:El; [|inversion Hs; subst; exact HI].
-    destruct (owner_ok v x t); inversion Hs; subst; [|exact HI]. eapply Inv_remove; eauto.
+    destruct (owner_ok v x t); inversion Hs; subst; [|exact HI]. apply Inv_mark_gone; eapply Inv_remove; eauto.
   - destruct (by_sid s !! sid) as [x|] eqn:El; [|inversion Hs; subst; exact HI].
     destruct (owner_ok v x t); inversion Hs; subst; exact HI.
   - destruct (by_sid s !! sid) as [x|] eqn:El; [|inversion Hs; subst; exact HI].
-    destruct (owner_ok v x t); inversion Hs; subst; [|exact HI]. apply Inv_set_attr_of; exact HI.
-  - destruct (by_sid s !! sid) as [x|] eqn:El; inversion Hs; subst; [|exact HI]. eapply Inv_remove; eauto.
+    destruct (owner_ok v x t); inversion Hs; subst; [|exact HI]. apply Inv_add_preq, Inv_set_attr_of; exact HI.
+  - destruct (by_sid s !! sid) as [x|] eqn:El; inversion Hs; subst; [|exact HI]. apply Inv_mark_gone; eapply Inv_remove; eauto.
   - unfold sid_used in Hs. destruct (N.eqb_spec sid 0); simpl in Hs; [discriminate|].
     destruct (N.ltb_spec sid 65536); simpl in Hs; [|discriminate].
     destruct (by_sid s !! sid) eqn:El; [discriminate|]. simpl in Hs.
@@ -783,7 +809,7 @@ Proof.
       - destruct (by_uidx s !! ctr s) as [y|] eqn:E; [|reflexivity]. destruct (inv_uidx _ HI _ _ E). lia.
       - intros y Hy. split; [eapply pend_has_false; eauto|]. destruct (inv_pend _ HI y Hy) as (_ & _ & F3 & _). lia. }
     destruct Hadd as [A B C D E0 F G0 H0]. split; simpl in *; auto.
-  - destruct Hv as (_ & Hrv & Hh). rewrite Hh in Hs. cbn [andb] in Hs.
+  - destruct Hv as (_ & Hrv & Hh & _). rewrite Hh in Hs. cbn [andb] in Hs.
     destruct (N.ltb_spec sid 65536) as [Hlt|]; simpl in Hs; [|discriminate].
     destruct (N.eqb_spec sid 0) as [|Hnz]; simpl in Hs; [inversion Hs; subst; exact HI|].
     destruct (id_used v s sid) eqn:Eu; [inversion Hs; subst; exact HI|]. inversion Hs; subst.
@@ -798,6 +824,13 @@ Proof.
       - intros y Hy. split; [apply (Ep Hrv); exact Hy|]. destruct (inv_pend _ HI y Hy) as (_ & _ & F3 & _). lia. }
     destruct Hadd as [A B C D E0 F G0 H0]. split; simpl in *; auto.
   - destruct (N.ltb_spec n 65536); inversion Hs; subst. apply Inv_set_next; auto.
+  - destruct (has_preq s (s_uid xx)); [|inversion Hs; subst; exact HI].
+    destruct (by_tup s !! s_tup xx) as [y|]; [|inversion Hs; subst; exact HI].
+    destruct (sess_eqb y xx); [|inversion Hs; subst; exact HI].
+    destruct (by_sid s !! s_sid xx) as [z|] eqn:El; inversion Hs; subst; [|exact HI].
+    apply Inv_mark_gone; eapply Inv_remove; eauto.
+  - destruct (is_gone s (s_uid xx)); inversion Hs; subst; [exact HI|].
+    apply Inv_mark_gone. apply Inv_remove_any; [apply Hv | exact HI].
 Qed.
 
 Lemma run_Inv v e : reserving v -> forall ops s s' outs, Inv s -> run v e s ops = Some (s', outs) -> Inv s'.
@@ -883,7 +916,7 @@ Proof.
      (forall u, r = OTerm u \/ r = OReach u -> exists x, live s x /\ s_uid x = u /\ s_tup x = t)).
   { intros s1 E1 E2 E3 Hr ->. rewrite E1, E2, E3. repeat split; auto.
     intros u Hu. exfalso. destruct Hu as [Hu|Hu]; destruct (Hr u); congruence. }
-  destruct o as [t0|t0 p oc|t0 p oc|u|t0 sid|t0 sid|t0 sid a|sid|sid t0 a|sid t0 a|n]; simpl in Hsnd; inversion Hsnd; subst t0;
+  destruct o as [t0|t0 p oc|t0 p oc|u|t0 sid|t0 sid|t0 sid a|sid|sid t0 a|sid t0 a|n|xx|xx]; simpl in Hsnd; inversion Hsnd; subst t0;
     simpl in Hs.
   - destruct (e_grp e t); inversion Hs; subst; eapply Hsame; eauto; intros u; split; discriminate.
   - destruct (padr_begin v e s t p oc) as [[s1 [x|]]|] eqn:Eb; inversion Hs; subst.
@@ -947,7 +980,7 @@ Proof.
      (attr_of s' = attr_of s \/
       exists sid x a, by_sid s !! sid = Some x /\ s_tup x = t /\ attr_of s' = <[ s_uid x := a ]> (attr_of s))).
   { intros s1 E1 E2 E3 ->. rewrite E1, E2, E3. auto. }
-  destruct o as [t0|t0 p oc|t0 p oc|u|t0 sid|t0 sid|t0 sid a|sid|sid t0 a|sid t0 a|n]; simpl in Hsnd; inversion Hsnd; subst t0;
+  destruct o as [t0|t0 p oc|t0 p oc|u|t0 sid|t0 sid|t0 sid a|sid|sid t0 a|sid t0 a|n|xx|xx]; simpl in Hsnd; inversion Hsnd; subst t0;
     simpl in Hs.
   - destruct (e_grp e t); inversion Hs; subst; eapply Hsame; eauto.
   - destruct (padr_begin v e s t p oc) as [[s1 [x|]]|] eqn:Eb; inversion Hs; subst.
@@ -1081,11 +1114,11 @@ Proof.
     - destruct (decide (s_tup y = t)) as [<-|Hne].
       + rewrite lookup_insert in Ht. inversion Ht; auto.
       + rewrite lookup_insert_ne in Ht by exact Hne. left; right; eauto. }
-  assert (Hrem : forall y s0, live (remove_indexes v y s0) x -> live s0 x).
-  { intros y s0 [[k Hk]|[t Ht]]; simpl in *.
+  assert (Hrem : forall u y s0, live (mark_gone u (remove_indexes v y s0)) x -> live s0 x).
+  { intros u y s0 [[k Hk]|[t Ht]]; simpl in *.
     - apply del_ifN_sub in Hk. left; eauto.
     - apply del_if_sub in Ht. right; eauto. }
-  intros Hs Hl. destruct o as [t|t p oc|t p oc|u|t sid|t sid|t sid a|sid|sid t a|sid t a|n]; simpl in Hs.
+  intros Hs Hl. destruct o as [t|t p oc|t p oc|u|t sid|t sid|t sid a|sid|sid t a|sid t a|n|xx|xx]; simpl in Hs.
   - destruct (e_grp e t); inversion Hs; subst; auto.
   - destruct (padr_begin v e s t p oc) as [[s1 ox]|] eqn:Eb; [|discriminate].
     destruct (padr_begin_frame _ _ _ _ _ _ _ _ Eb) as (E1 & E2 & E3 & E4 & E5 & E6 & E7).
@@ -1131,6 +1164,13 @@ Proof.
       by (destruct Hl as [[k Hk]|[t' Ht]]; [left | right]; eauto).
     apply Hadd in Hl' as [Hl'| ->]; [left; left; exact Hl' | right; right; eauto].
   - destruct (N.ltb n 65536); inversion Hs; subst. left. exact Hl.
+  - destruct (has_preq s (s_uid xx)); [|inversion Hs; subst; auto].
+    destruct (by_tup s !! s_tup xx) as [y|]; [|inversion Hs; subst; auto].
+    destruct (sess_eqb y xx); [|inversion Hs; subst; auto].
+    destruct (by_sid s !! s_sid xx) as [z|]; inversion Hs; subst; auto. left.
+    destruct Hl as [Hl|Hl]; [left; eapply Hrem; eauto | right; exact Hl].
+  - destruct (is_gone s (s_uid xx)); inversion Hs; subst; auto. left.
+    destruct Hl as [Hl|Hl]; [left; eapply Hrem; eauto | right; exact Hl].
 Qed.
 
 (* ------------------------------------------------------------------ allocation inside PADR *)
@@ -1140,7 +1180,7 @@ Lemma padr_creates_when_room v e s t p tg : reserving v -> Inv s -> parse_tags p
   exists s' sid, step v e s (PADR t p Policy) = Some (s', OPads sid (ctr s)) /\ 0 < sid < 65536 /\
     id_used v s sid = false /\ by_sid s' !! sid = Some {| s_uid := ctr s; s_sid := sid; s_tup := t |}.
 Proof.
-  intros (Hg & Hr & _) HI Hp Hv Hgr (j & Hj & Hfree). simpl. unfold padr_begin. rewrite Hp, Hv, Hgr. simpl.
+  intros (Hg & Hr & _ & _) HI Hp Hv Hgr (j & Hj & Hfree). simpl. unfold padr_begin. rewrite Hp, Hv, Hgr. simpl.
   destruct (allocate_complete v s) as (sid & n' & Ha & Hc); [apply norm_next_range; [exact Hg | apply HI]|].
   rewrite Ha. pose proof Ha as Hsound. apply allocate_sound in Hsound; [|apply norm_next_range; [exact Hg | apply HI]].
   destruct Hc as [[Hne Hf]|[-> Hall]]; [|rewrite (Hall j Hj) in Hfree; discriminate].
@@ -1153,7 +1193,7 @@ Lemma padr_full_repaired v e s t p oc s' r : reserving v -> Inv s -> (forall j, 
   step v e s (PADR t p oc) = Some (s', r) ->
   r = ONone /\ by_sid s' = by_sid s /\ by_tup s' = by_tup s /\ pend s' = pend s.
 Proof.
-  intros (Hg & Hr & _) HI Hall. simpl. destruct (padr_begin v e s t p oc) as [[s1 ox]|] eqn:Eb; [|discriminate].
+  intros (Hg & Hr & _ & _) HI Hall. simpl. destruct (padr_begin v e s t p oc) as [[s1 ox]|] eqn:Eb; [|discriminate].
   destruct (padr_begin_frame _ _ _ _ _ _ _ _ Eb) as (E1 & E2 & _ & _ & _ & E6 & _).
   apply padr_begin_cases in Eb as [Hx|(tg & sid & n' & _ & _ & _ & Ha & Hc)].
   - inversion Hx; subst. intros Hs; inversion Hs; auto.
@@ -1270,79 +1310,8 @@ Proof.
     split; [apply lookup_insert|]. split; [intros Hx; inversion Hx; lia | auto].
 Qed.
 
-(* ------------------------------------------------------------------ the unreserved variant equals the reserving one when PADRs do not overlap *)
-Definition no_overlap (o : op) : Prop := match o with PBEGIN _ _ _ | PCOMMIT _ => False | _ => True end.
-
-Lemma step_unreserved_eq e s o : pend s = [] -> no_overlap o -> step Unreserved e s o = step ReserveOnly e s o.
-Proof.
-  intros Hp Ho.
-  assert (Hu : forall k, id_used Unreserved s k = id_used ReserveOnly s k)
-    by (intros k; unfold id_used; rewrite Hp; reflexivity).
-  assert (Ha : allocate Unreserved s = allocate ReserveOnly s).
-  { unfold allocate. change (norm_next Unreserved (next s)) with (norm_next ReserveOnly (next s)).
-    generalize alloc_fuel (norm_next ReserveOnly (next s)). intros f n0. generalize n0 at 2 4.
-    induction f as [|f IH]; intros nxt; [reflexivity|]. rewrite !alloc_loop_unfold, Hu.
-    destruct (negb _); [reflexivity|]. destruct (N.eqb _ _); [reflexivity | apply IH]. }
-  destruct o as [t|t p oc|t p oc|u|t sid|t sid|t sid a|sid|sid t a|sid t a|n]; try contradiction.
-  2: { assert (Hc : alloc_choice Unreserved s oc = alloc_choice ReserveOnly s oc).
-       { destruct oc as [| |c]; cbn [alloc_choice]; [exact Ha | | rewrite Hu; reflexivity].
-         unfold some_id_free. rewrite (alloc_loop_ext _ _ _ 1 Hu). reflexivity. }
-       cbn [step]. unfold padr_begin. rewrite Hc. reflexivity. }
-  7: { cbn [step]. rewrite Hu. reflexivity. }
-  all: reflexivity.
-Qed.
-
-Lemma step_pend_nil v e s o s' r : pend s = [] -> no_overlap o -> step v e s o = Some (s', r) -> pend s' = [].
-Proof.
-  intros Hp Ho Hs. destruct o as [t|t p oc|t p oc|u|t sid|t sid|t sid a|sid|sid t a|sid t a|n]; try contradiction; simpl in Hs.
-  - destruct (e_grp e t); inversion Hs; subst; auto.
-  - destruct (padr_begin v e s t p oc) as [[s1 ox]|] eqn:Eb; [|discriminate].
-    destruct (padr_begin_frame _ _ _ _ _ _ _ _ Eb) as (_ & _ & _ & _ & _ & E6 & _).
-    destruct ox; inversion Hs; subst; simpl; congruence.
-  - destruct (by_sid s !! sid) as [x|]; [|inversion Hs; subst; auto].
-    destruct (owner_ok v x t); inversion Hs; subst; auto.
-  - destruct (by_sid s !! sid) as [x|]; [|inversion Hs; subst; auto].
-    destruct (owner_ok v x t); inversion Hs; subst; auto.
-  - destruct (by_sid s !! sid) as [x|]; [|inversion Hs; subst; auto].
-    destruct (owner_ok v x t); inversion Hs; subst; auto.
-  - destruct (by_sid s !! sid) as [x|]; inversion Hs; subst; auto.
-  - destruct (_ || _); [discriminate|]. inversion Hs; subst; auto.
-  - destruct (negb (N.ltb sid 65536)); [discriminate|].
-    destruct (v_ha_check v && _); inversion Hs; subst; auto.
-  - destruct (N.ltb n 65536); inversion Hs; subst; auto.
-Qed.
-
-Lemma run_unreserved_eq e : forall ops s, pend s = [] -> Forall no_overlap ops -> run Unreserved e s ops = run ReserveOnly e s ops.
-Proof.
-  induction ops as [|o r IH]; intros s Hp Hall; [reflexivity|]. apply Forall_cons in Hall as [Ho Hall]. simpl.
-  rewrite (step_unreserved_eq e s o Hp Ho). destruct (step ReserveOnly e s o) as [[s1 x]|] eqn:Es; [|reflexivity].
-  rewrite IH; auto. eapply step_pend_nil; eauto.
-Qed.
-
-Lemma reserving_HeadReserve : reserving ReserveOnly. Proof. repeat split; reflexivity. Qed.
 Lemma reserving_Repaired : reserving Repaired. Proof. repeat split; reflexivity. Qed.
 Lemma owning_Repaired : owning Repaired. Proof. split; [reflexivity | apply reserving_Repaired]. Qed.
-Lemma owning_HeadReserve : owning ReserveOnly. Proof. split; [reflexivity | apply reserving_HeadReserve]. Qed.
-
-(* before 46cb3dc, histories in which no two PADRs overlap between allocation and indexing: distinct non-zero ids *)
-Lemma sid_distinct_nonzero_unreserved e ops s outs x y : Forall no_overlap ops ->
-  run Unreserved e st0 ops = Some (s, outs) -> alive s x -> alive s y ->
-  0 < s_sid x < 65536 /\ (s_sid x = s_sid y -> x = y).
-Proof.
-  intros Hall Hr. rewrite run_unreserved_eq in Hr; auto. eapply sid_distinct_nonzero; [apply reserving_HeadReserve | exact Hr].
-Qed.
-
-(* before 46cb3dc / 9893c59: isolation on the two primary indexes (the lookup paths of PADT and session packets) *)
-Lemma isolation_unreserved e s o s' r t : pend s = [] -> no_overlap o -> Inv s -> sender o = Some t ->
-  step Unreserved e s o = Some (s', r) ->
-  (forall k x, by_sid s !! k = Some x -> s_tup x <> t -> by_sid s' !! k = Some x) /\
-  (forall t', t' <> t -> by_tup s' !! t' = by_tup s !! t') /\
-  (forall k x, by_sid s' !! k = Some x -> by_sid s !! k = Some x \/ s_tup x = t) /\
-  (forall u, r = OTerm u \/ r = OReach u -> exists x, live s x /\ s_uid x = u /\ s_tup x = t).
-Proof.
-  intros Hp Ho HI Hsnd Hs. rewrite step_unreserved_eq in Hs; auto.
-  destruct (isolation_core _ _ _ _ _ _ _ owning_HeadReserve HI Hsnd Hs) as (I1 & I2 & I3 & _ & I5). auto.
-Qed.
 
 (* ------------------------------------------------------------------ tags *)
 Lemma parse_tags_loop_fuel : forall fuel p acc, (length p < fuel)%nat -> parse_tags_loop fuel p acc <> OutOfFuel.
@@ -1782,3 +1751,138 @@ Example alt_scheme_history :
   | _ => False
   end.
 Proof. vm_compute. reflexivity. Qed.
+
+(* ------------------------------------------------------------------ an id is in use exactly while its session is alive *)
+Lemma pend_has_true l k : pend_has l k = true <-> exists x, In x l /\ s_sid x = k.
+Proof.
+  unfold pend_has. rewrite existsb_exists. split; intros (x & Hx & He); exists x; split; auto.
+  - apply N.eqb_eq. exact He.
+  - apply N.eqb_eq. exact He.
+Qed.
+
+Lemma id_used_iff_alive v s k : v_reserve v = true -> Inv s ->
+  id_used v s k = true <-> exists x, alive s x /\ s_sid x = k.
+Proof.
+  intros Hr HI. unfold id_used, sid_used. rewrite Hr. cbn [andb]. split.
+  - intros Hu. apply orb_true_iff in Hu as [Hu|Hu].
+    + destruct (by_sid s !! k) as [x|] eqn:E; [|discriminate]. exists x. split; [left; left; eauto|].
+      apply (inv_sid _ HI _ _ E).
+    + apply pend_has_true in Hu as (x & Hx & He). exists x. split; [right; exact Hx | exact He].
+  - intros (x & [Hl|Hp] & He); apply orb_true_iff.
+    + left. apply live_in_sid in Hl; [|exact HI]. rewrite He in Hl. rewrite Hl. reflexivity.
+    + right. apply pend_has_true. eauto.
+Qed.
+
+(* whether a given session object is in one of the two primary indexes is decidable (under the invariant) *)
+Lemma classic_live s x : Inv s -> live s x \/ ~ live s x.
+Proof.
+  intros HI. destruct (by_sid s !! s_sid x) as [y|] eqn:Es.
+  - destruct (sess_eqb y x) eqn:Eq.
+    + apply sess_eqb_eq in Eq. subst y. left. left. eauto.
+    + right. intros Hl. apply live_in_sid in Hl; [|exact HI]. rewrite Es in Hl. inversion Hl; subst y.
+      rewrite (proj2 (sess_eqb_eq x x) eq_refl) in Eq. discriminate.
+  - right. intros Hl. apply live_in_sid in Hl; [|exact HI]. congruence.
+Qed.
+
+Definition is_teardown (o : op) : Prop :=
+  match o with PADT _ _ | DEAD _ | AAAREJ _ | VPPFAIL _ => True | _ => False end.
+
+(* removing a LIVE session frees exactly its id *)
+Lemma remove_live_frees v s x : v_reserve v = true -> v_guard_remove v = true -> Inv s -> live s x ->
+  ~ live (remove_indexes v x s) x /\ id_used v (remove_indexes v x s) (s_sid x) = false /\
+  (forall k, k <> s_sid x -> id_used v (remove_indexes v x s) k = id_used v s k).
+Proof.
+  intros Hr Hg HI Hl. pose proof (live_in_sid _ _ HI Hl) as Hx. split; [|split].
+  - intros [[k Hk]|[t Ht]]; simpl in *; rewrite Hg in *.
+    + pose proof Hk as Hk0. apply del_ifN_sub in Hk. destruct (inv_sid _ HI _ _ Hk) as [<- _].
+      rewrite del_ifN_own in Hk0; [discriminate | exact Hk].
+    + pose proof Ht as Ht0. apply del_if_sub in Ht. destruct (inv_tup _ HI _ _ Ht) as [<- _].
+      rewrite del_if_own in Ht0; [discriminate | exact Ht].
+  - unfold id_used, sid_used. simpl. rewrite del_ifN_own by exact Hx. rewrite Hr. simpl.
+    destruct (pend_has (pend s) (s_sid x)) eqn:Ep; [|reflexivity].
+    apply pend_has_true in Ep as (y & Hy & He). destruct (inv_pend _ HI y Hy) as (_ & F2 & _).
+    rewrite He, Hx in F2. discriminate.
+  - intros k Hk. unfold id_used, sid_used. simpl. rewrite del_ifN_ne by auto. reflexivity.
+Qed.
+
+(* tearing down a STALE session object (not in sidIndex / sessions any more: a late dataplane callback) leaves both
+   indexes exactly as they are — in particular the entry of a session that has been given the same id since *)
+Lemma remove_stale_noop v s x : v_guard_remove v = true -> Inv s -> ~ live s x ->
+  by_sid (remove_indexes v x s) = by_sid s /\ by_tup (remove_indexes v x s) = by_tup s.
+Proof.
+  intros Hg HI Hn. simpl. rewrite Hg. unfold del_ifN, del_if. split.
+  - destruct (by_sid s !! s_sid x) as [y|] eqn:E; [|reflexivity]. destruct (sess_eqb y x) eqn:Eq; [|reflexivity].
+    apply sess_eqb_eq in Eq. subst y. exfalso. apply Hn. left. eauto.
+  - destruct (by_tup s !! s_tup x) as [y|] eqn:E; [|reflexivity]. destruct (sess_eqb y x) eqn:Eq; [|reflexivity].
+    apply sess_eqb_eq in Eq. subst y. exfalso. apply Hn. right. eauto.
+Qed.
+
+(* every teardown path (PADT, dead peer, AAA reject, dataplane add failure) that reports a termination: the session
+   object is marked torn down and is in no index afterwards; if it was live its id — and only its id — is free
+   again; if it was stale both indexes are untouched *)
+Lemma teardown_frees_exactly v e s o s' u : reserving v -> Inv s -> is_teardown o ->
+  step v e s o = Some (s', OTerm u) ->
+  exists x, s_uid x = u /\ ~ live s' x /\ is_gone s' u = true /\
+    (live s x -> id_used v s (s_sid x) = true /\ id_used v s' (s_sid x) = false /\
+                 forall k, k <> s_sid x -> id_used v s' k = id_used v s k) /\
+    (~ live s x -> by_sid s' = by_sid s /\ by_tup s' = by_tup s) /\
+    (live s x \/ o = VPPFAIL x).
+Proof.
+  intros Hv HI Ht Hs. pose proof Hv as (_ & Hr & _ & Hg).
+  assert (Hcore : forall x, s' = mark_gone (s_uid x) (remove_indexes v x s) -> u = s_uid x ->
+            (live s x \/ o = VPPFAIL x) ->
+            exists x, s_uid x = u /\ ~ live s' x /\ is_gone s' u = true /\
+              (live s x -> id_used v s (s_sid x) = true /\ id_used v s' (s_sid x) = false /\
+                           forall k, k <> s_sid x -> id_used v s' k = id_used v s k) /\
+              (~ live s x -> by_sid s' = by_sid s /\ by_tup s' = by_tup s) /\
+              (live s x \/ o = VPPFAIL x)).
+  { intros x -> -> Hor. exists x. split; [reflexivity|]. split; [|split; [|split; [|split]]].
+    - intros Hl. assert (Hl' : live (remove_indexes v x s) x) by exact Hl.
+      destruct (classic_live s x HI) as [Hlx|Hnx].
+      + apply (proj1 (remove_live_frees v s x Hr Hg HI Hlx)). exact Hl'.
+      + destruct (remove_stale_noop v s x Hg HI Hnx) as [E1 E2]. apply Hnx.
+        destruct Hl' as [[k Hk]|[t Hk]]; [left; exists k; rewrite <- E1 | right; exists t; rewrite <- E2]; exact Hk.
+    - unfold is_gone. simpl. rewrite N.eqb_refl. reflexivity.
+    - intros Hl. destruct (remove_live_frees v s x Hr Hg HI Hl) as (_ & F2 & F3).
+      split; [apply id_used_iff_alive; [exact Hr | exact HI | exists x; split; [left; exact Hl | reflexivity]]|].
+      split; [exact F2 | exact F3].
+    - intros Hn. apply (remove_stale_noop v s x Hg HI Hn).
+    - exact Hor. }
+  destruct o as [t|t p oc|t p oc|u0|t sid|t sid|t sid a|sid|sid t a|sid t a|n|x|x]; try contradiction; simpl in Hs.
+  - destruct (by_sid s !! sid) as [x|] eqn:El; [|discriminate].
+    destruct (owner_ok v x t); inversion Hs; subst. eapply Hcore; eauto. left. left. eauto.
+  - destruct (by_sid s !! sid) as [x|] eqn:El; inversion Hs; subst. eapply Hcore; eauto. left. left. eauto.
+  - destruct (has_preq s (s_uid x)); [|discriminate]. destruct (by_tup s !! s_tup x) as [y|]; [|discriminate].
+    destruct (sess_eqb y x); [|discriminate].
+    destruct (by_sid s !! s_sid x) as [z|] eqn:El; inversion Hs; subst. eapply Hcore; eauto. left. left. eauto.
+  - destruct (is_gone s (s_uid x)); inversion Hs; subst. eapply Hcore; eauto.
+Qed.
+
+(* the AAA reject re-looks the id up after having found the session through c.sessions: under the invariant the
+   session it then tears down IS the one the answer belongs to *)
+Lemma aaa_reject_terminates_own v e s x s' r : Inv s -> step v e s (AAAREJ x) = Some (s', r) ->
+  r = ONone \/ (r = OTerm (s_uid x) /\ by_tup s !! s_tup x = Some x /\ by_sid s !! s_sid x = Some x).
+Proof.
+  intros HI Hs. simpl in Hs. destruct (has_preq s (s_uid x)); [|inversion Hs; auto].
+  destruct (by_tup s !! s_tup x) as [y|] eqn:Et; [|inversion Hs; auto].
+  destruct (sess_eqb y x) eqn:Eq; [|inversion Hs; auto]. apply sess_eqb_eq in Eq. subst y.
+  destruct (inv_tup _ HI _ _ Et) as [_ Hx]. rewrite Hx in Hs. inversion Hs; subst. right. auto.
+Qed.
+
+(* a torn-down session object is never torn down twice by a late dataplane failure (7b3d79c) *)
+Lemma late_vpp_failure_ignored v e s x : is_gone s (s_uid x) = true -> step v e s (VPPFAIL x) = Some (s, ONone).
+Proof. intros Hg. simpl. rewrite Hg. reflexivity. Qed.
+
+Definition xA0 : sess := {| s_uid := 0; s_sid := 1; s_tup := tA |}.
+Definition xB1 : sess := {| s_uid := 1; s_sid := 1; s_tup := tB |}.
+(* A authenticates, AAA rejects: A's session is torn down and id 1 is free; B is given id 1; the late dataplane
+   failure of A's queued add is ignored, B's session is untouched; a dataplane failure for B tears B down *)
+Example teardown_history :
+  match run Repaired env0 st0 [padr_of tA; SETATTR tA 1 bob; AAAREJ xA0; AAAREJ xA0;
+                               PADR tB (add_tag TagACCookie (generate toyH 1000 tB)) (Chose 1);
+                               VPPFAIL xA0; SESS tB 1; VPPFAIL xB1; VPPFAIL xB1; SESS tB 1] with
+  | Some (s, outs) => outs = [OPads 1 0; OReach 0; OTerm 0; ONone; OPads 1 1; ONone; OReach 1; OTerm 1; ONone; ONone]
+                      /\ by_sid s !! 1 = None
+  | None => False
+  end.
+Proof. vm_compute. split; reflexivity. Qed.
